@@ -134,7 +134,7 @@ pub fn run(req: &J) -> J {
         let r = tpl.render_to(&mut sink, &data);
         return json!({
             "result": match r { Ok(()) => json!("ok"), Err(e) => json!({"err": e.to_string()}) },
-            "accepted": out_json(&sink.accepted), "calls": sink.calls,
+            "accepted": out_json(&sink.accepted), "accepted_bytes": sink.accepted.clone(), "calls": sink.calls,
             "calls_after_failure": sink.calls_after_failure, "sink_failed": sink.failed,
         });
     }
